@@ -42,7 +42,7 @@ def run17(tier):
 def run18(tier):
     c = vlib.Check("C18", tier, "model_checking", RULE18, "spvec_bfs+fp_enum")
     c.assumptions = ["integer extremes of built-in types (|a| near the type's maximum) are outside the alphabet",
-                     "both registers of an SpVecFP history share the same prime"]
+                     "each register carries its own prime (the real default constructor yields F_3; copy/move/assignment must carry the prime); binary operations between vectors over different fields are outside the alphabet"]
     bf = _b_fp()
     bs = _b_spvec()
     if tier == "quick":
